@@ -156,6 +156,7 @@ static int          aio_done[NAIO];
 static int          aio_rv[NAIO];
 static nng_msg     *aio_msg[NAIO];
 static nng_msg     *aio_sent[NAIO]; // the pointer the harness attached to a send aio
+static int          aio_stale[NAIO]; // a successful send left a (dangling) message pointer in the aio
 static nni_mtx      cb_mtx;
 static uint32_t     rids[256];
 static int          nrids;
@@ -189,6 +190,10 @@ aio_cb(void *arg)
 		nng_aio_set_msg(aios[k], NULL);
 	} else if (aio_kind[k] == 1 && aio_rv[k] != 0) {
 		aio_msg[k] = nng_aio_get_msg(aios[k]); // failed send: must still be ours
+		nng_aio_set_msg(aios[k], NULL);
+	} else if (aio_kind[k] == 1 && aio_rv[k] == 0) {
+		// successful send: the message is the library's; the aio must not keep pointing at it
+		aio_stale[k] = (nng_aio_get_msg(aios[k]) != NULL);
 		nng_aio_set_msg(aios[k], NULL);
 	}
 	aio_done[k] = 1;
@@ -306,6 +311,9 @@ observe(int rv, const char *extra)
 				printf(":");
 				print_msg(aio_msg[k]);
 				nng_msg_free(aio_msg[k]);
+			} else if (aio_kind[k] == 1 && aio_rv[k] == 0 && aio_stale[k]) {
+				printf(":STALE");
+				aio_stale[k] = 0;
 			} else if (aio_kind[k] == 1 && aio_rv[k] != 0) {
 				if (aio_msg[k] != NULL && aio_msg[k] == aio_sent[k]) {
 					printf(":kept");
